@@ -1,4 +1,6 @@
 import PeliteModel.Lemmas.ResIco
+import PeliteModel.Lemmas.ResFsckLimit
+import PeliteModel.Lemmas.ResSink
 /-!
 C12 — resource tree traversal, lookup and reassembly reflect the stored directory.
 
@@ -376,6 +378,89 @@ theorem C12_fsck_examples :
             0,0,0,0, 0,0,0,0, 0,0,0,0, 0,0,0,0], 0, 0⟩ = .err .insanity := by
   decide +kernel
 
+/-! ### The two limits of `fsck` as a finding
+
+The statement says "the consistency check succeeds on every well-formed tree".  The repair of the
+unbounded recursion (1a28b42) gave `fsck` a depth limit (`FSCK_MAX_DEPTH = 32`) and a budget of
+`len / 16` directory VISITS.  Both reject sections that are well formed in the statement's sense. -/
+
+/-- What "well formed" means on the stored graph, independently of `fsck`: when the section
+represents a tree, every directory reachable from the root by sub-directory references represents a
+tree itself (so all references below it are aligned and in bounds, every data range lies in the
+section) and no directory is reachable from itself. -/
+theorem C12_tree_is_well_formed (r : Resources) (t : Node) (h : IsTree r t) (n b : Nat) (hr : Reach r 0 n b) :
+    (∃ m es, IsNode r b (.dir m es)) ∧ ∀ k, ¬ Reach r b (k + 1) b := by
+  obtain ⟨hdir, hnode⟩ := h
+  cases t with
+  | data c cp => cases hdir
+  | dir m es =>
+    obtain ⟨m', es', h1, _⟩ := reach_isNode hr hnode
+    exact ⟨⟨m', es', h1⟩, fun k hk => no_self_reach hk es'.depth m' es' (Nat.le_refl _) h1⟩
+
+/-- **`fsck` on a well-formed section, exactly**: it succeeds when the tree nests at most 32
+directories deep and has at most `len / 16` directories counted with multiplicity; otherwise it
+answers `Insanity` — and nothing else can happen. -/
+theorem C12_fsck_on_tree_exact (r : Resources) (hb : Aligned r) (t : Node) (h : IsTree r t) :
+    fsck r = if t.depth ≤ 32 ∧ t.dirCount ≤ r.sec.size / 16 then .ok () else .err .insanity := by
+  by_cases c : t.depth ≤ 32 ∧ t.dirCount ≤ r.sec.size / 16
+  · rw [if_pos c]; exact (C12_fsck_on_tree r hb t h).2 c
+  · rw [if_neg c]
+    rcases fsck_tree_ok_or_insanity hb h with e | e
+    · exact absurd ((C12_fsck_on_tree r hb t h).1 e) c
+    · exact e
+
+/-- the witness of `C12_fsck_rejects_shared`: 56 bytes, a root with three id entries (1, 2, 3) whose
+Offset fields all designate ONE empty sub-directory at offset 40 -/
+def sharedSection : Resources :=
+  ⟨#[0,0,0,0, 0,0,0,0, 0,0,0,0, 0,0,3,0,  1,0,0,0, 40,0,0,0x80,  2,0,0,0, 40,0,0,0x80,  3,0,0,0, 40,0,0,0x80,
+     0,0,0,0, 0,0,0,0, 0,0,0,0, 0,0,0,0], 0, 0⟩
+
+/-- the tree it represents (what a traversal reports): three empty sub-directories -/
+def sharedTree : Node :=
+  .dir 0 (.cons (.id 1) (.dir 0 .nil) (.cons (.id 2) (.dir 0 .nil) (.cons (.id 3) (.dir 0 .nil) .nil)))
+
+/-- **Known finding (budget).**  A well-formed section — all references in bounds and aligned, no
+directory contains itself, two levels deep, a traversal reports its tree — in which three entries
+share one child is rejected with `Insanity`: unfolded it has 4 directories, the budget is
+`56 / 16 = 3` visits. -/
+theorem C12_fsck_rejects_shared :
+    Aligned sharedSection ∧ IsTree sharedSection sharedTree ∧
+    readTree sharedSection 2 = .ok sharedTree ∧
+    (∀ n b, Reach sharedSection 0 n b → ∀ k, ¬ Reach sharedSection b (k + 1) b) ∧
+    sharedTree.depth = 2 ∧ sharedTree.dirCount = 4 ∧ fsckBudget sharedSection = 3 ∧
+    fsck sharedSection = .err .insanity := by
+  have hb : Aligned sharedSection := by decide
+  have ht : IsTree sharedSection sharedTree := by decide +kernel
+  refine ⟨hb, ht, readTree_of_isTree hb ht (by decide), fun n b hr => (C12_tree_is_well_formed _ _ ht n b hr).2,
+    by decide, by decide, by decide, ?_⟩
+  rw [C12_fsck_on_tree_exact _ hb _ ht, if_neg (by decide)]
+
+/-- **Known finding (depth).**  The section the reference writer produces for a chain of 33 nested
+directories above one data entry is well formed (it represents the chain, a traversal reports it, the
+budget does not bind: 33 directories, `len / 16 ≥ 33`), and `fsck` answers `Insanity`. -/
+theorem C12_fsck_rejects_deep :
+    Aligned (resourcesOf 0 (chain 33)) ∧ IsTree (resourcesOf 0 (chain 33)) (chain 33) ∧
+    readTree (resourcesOf 0 (chain 33)) 33 = .ok (chain 33) ∧
+    (∀ n b, Reach (resourcesOf 0 (chain 33)) 0 n b → ∀ k, ¬ Reach (resourcesOf 0 (chain 33)) b (k + 1) b) ∧
+    (chain 33).depth = 33 ∧ (chain 33).dirCount = 33 ∧ 33 ≤ fsckBudget (resourcesOf 0 (chain 33)) ∧
+    fsck (resourcesOf 0 (chain 33)) = .err .insanity := by
+  have henc : Encodable 0 (chain 33) ∧ (chain 33).depth = 33 ∧ (chain 33).dirCount = 33 ∧ 33 ≤ (chain 33).size / 16 := by
+    decide +kernel
+  have hb := aligned_resourcesOf 0 (chain 33)
+  have ht : IsTree (resourcesOf 0 (chain 33)) (chain 33) := isTree_resourcesOf henc.1
+  refine ⟨hb, ht, readTree_of_isTree hb ht (by omega), fun n b hr => (C12_tree_is_well_formed _ _ ht n b hr).2,
+    henc.2.1, henc.2.2.1, ?_, ?_⟩
+  · show 33 ≤ (resourcesOf 0 (chain 33)).sec.size / 16
+    rw [resourcesOf_size]; exact henc.2.2.2
+  · rw [C12_fsck_on_tree_exact _ hb _ ht, if_neg (by omega)]
+
+/-- the general form of the depth finding: EVERY encodable tree with more than 32 levels of
+directories is written to a well-formed section that `fsck` rejects with `Insanity` -/
+theorem C12_fsck_rejects_every_deep_tree (dirVA : Nat) (t : Node) (h : Encodable dirVA t) (hd : 32 < t.depth) :
+    IsTree (resourcesOf dirVA t) t ∧ fsck (resourcesOf dirVA t) = .err .insanity := by
+  refine ⟨isTree_resourcesOf h, ?_⟩
+  rw [C12_fsck_on_tree_exact _ (aligned_resourcesOf dirVA t) _ (isTree_resourcesOf h), if_neg (by omega)]
+
 /-! ## 7. Group icons / cursors -/
 
 /-- `write` outputs the 6 header bytes, then one 16-byte record per entry, then for every entry (in
@@ -424,6 +509,43 @@ theorem C12_write_reproduces_ico (r : Resources) (hb : Aligned r) (kind : Nat) (
     (ht : IsTree r (icoToTree kind imgs)) (hc : Canon r 0 (icoToTree kind imgs)) :
     ∃ g, groups r (icoGroupType kind) = .ok [.ok (.id 1, g)] ∧ g.write r = .ok (icoFile kind imgs) :=
   write_ico hb hok ht hc
+
+/-- **Reassembly into any sink that makes progress.**  `write` takes a `&mut dyn io::Write`; such a
+sink may accept fewer bytes per call than it is offered (a pipe, a cursor over a short buffer).
+`Group.writeChunked r g n` is `write` into a sink that accepts at most `n` bytes per call, every piece
+handed over with `write_all` (1c97be5; before, `write` was called once per piece and the count it
+returned was ignored).  For every `n ≥ 1` the sink receives exactly the bytes a vector receives and
+`write` succeeds; a sink that accepts nothing makes it fail (`WriteZero`) having received nothing. -/
+theorem C12_write_any_sink (r : Resources) (hb : Aligned r) (g : Group) (hg : GroupOK r g) :
+    ∃ out, g.write r = .ok out ∧ (∀ n, 0 < n → g.writeChunked r n = .ok ⟨out, false⟩) ∧
+      g.writeChunked r 0 = .ok ⟨[], true⟩ := by
+  obtain ⟨out, ho⟩ := write_ok hb hg
+  refine ⟨out, ho, fun n hn => by rw [writeChunked_eq r g hn, ho]; rfl, ?_⟩
+  have hf := writeCalls_flatten r g
+  rw [ho] at hf
+  unfold Group.writeChunked
+  cases hc : g.writeCalls r with
+  | ok calls =>
+    dsimp only
+    unfold Group.writeCalls at hc
+    rw [groupEntries_eq hg] at hc
+    dsimp only at hc
+    cases hi : writeImageCalls r g (groupEntriesFrom r (g.off + 6) g.count) with
+    | ok images =>
+      rw [hi] at hc
+      cases hc
+      rfl
+    | _ => rw [hi] at hc; cases hc
+  | _ => rw [hc] at hf; cases hf
+
+/-- the round trip of `C12_ico_round_trip` through any sink that accepts at least one byte per call -/
+theorem C12_ico_round_trip_any_sink (kind : Nat) (imgs : List IcoImage) (hok : IcoOK kind imgs)
+    (henc : Encodable 0 (icoToTree kind imgs)) (n : Nat) (hn : 0 < n) :
+    ∃ g, (if kind = 1 then icons (icoToResources kind imgs) else cursors (icoToResources kind imgs)) =
+        .ok [.ok (.id 1, g)] ∧
+      g.writeChunked (icoToResources kind imgs) n = .ok ⟨icoFile kind imgs, false⟩ := by
+  obtain ⟨g, h1, h2⟩ := C12_ico_round_trip kind imgs hok henc
+  exact ⟨g, h1, by rw [writeChunked_eq _ g hn, h2]; rfl⟩
 
 /-! ## 8. The hypotheses are satisfiable on non-trivial instances -/
 
